@@ -131,7 +131,9 @@ def run(facts, tr, rep):
         if kind != "plain":
             continue
         edges = dominating_edges(tr, b, a.into_bb)
-        on_none = any(optionlike_role(facts, b, e) == "none" and mentions_field(tr, e["node"], "max_wait_duration") for e in edges)
+        # the policy matched on is the configured one on every path (a local that is `Unbounded` when a slot *looked* free at
+        # call() time and the configured policy otherwise is not: the look is stale by the first poll)
+        on_none = any(optionlike_role(facts, b, e) == "none" and all(mentions_field(tr, lf, "max_wait_duration") for lf in leaves(e["node"])) for e in edges)
         rep.ob("C07.BOUNDED-WAIT", skey(b, "plain-acquire@L%d" % a.line), on_none, g.where(a.into_bb),
                "the permit is awaited without a deadline only when max_wait_duration is None" if on_none else
                "the permit is awaited without a deadline on a path where max_wait_duration may be configured: such a caller is "
